@@ -242,6 +242,20 @@ theorem C10_apfl_map_congr (grad : P → β → NKey → P) (copt : Optimizer σ
   · simp only [apflRound, hr, hs]
   · rw [C10_apfl_table, C10_apfl_table, hr, ht]
 
+/-- **Only a participant's own entry matters.** Two input states with the same server part whose
+tables agree at the ids of the participants give the same per-client results (new states and
+deltas) — whatever else the tables hold, and in particular whether or not *other* clients have an
+entry.  (The harness tests exactly this: removing one returning client's entry changes that
+client's new entry and nobody else's.) -/
+theorem C10_apfl_entry_local (grad : P → β → NKey → P) (copt : Optimizer σc) (c0 : Rat)
+    (s s' : AState ι σs) (clients : List (AClient ι β)) (hs : s.server = s'.server)
+    (ht : ∀ c ∈ clients, s.table.get? c.id = s'.table.get? c.id) :
+    apflResults grad copt c0 s clients = apflResults grad copt c0 s' clients := by
+  unfold apflResults
+  apply List.map_congr_left
+  intro c hc
+  simp only [Table.getD, ht c hc, hs]
+
 /-- fold invariant of the in-place code -/
 theorem inplace_fold (grad : P → β → NKey → P) (copt : Optimizer σc) (c0 : Rat) (s : AState ι σs) :
     ∀ (cs : List (AClient ι β)) (T : Table ι ClientSt) (L : List (ι × P)),
@@ -369,6 +383,75 @@ theorem C10_compression_local {ι : Type} (rotated : Bool) (quant quant' : Optio
     obtain ⟨_, huse, hrot⟩ := roundKeys_below rotated st.rng
     rw [h _ _ _ (huse.trans (prefix_seqKey _ _)) hrot]
   simp only [compApply, hq]
+
+/-! ### the weighted mean with one-hot weights returns that client's quantised value -/
+
+open FedjaxVerif.FedAvg (vadd vscale) in
+theorem vadd_vscale_zero (a x : P) (h : a.length = x.length) : vadd a (vscale 0 x) = a := by
+  induction a generalizing x with
+  | nil => simp [vadd]
+  | cons y a ih =>
+    cases x with
+    | nil => simp at h
+    | cons z x =>
+      simp only [List.length_cons, Nat.add_right_cancel_iff] at h
+      have := ih x h
+      simp only [vadd, vscale, List.map_cons, List.zipWith_cons_cons] at this ⊢
+      rw [this]; simp
+
+open FedjaxVerif.FedAvg (vadd vscale) in
+theorem fold_zero_weights (d : Nat) (xs : List P) (hx : ∀ p ∈ xs, p.length = d) (a : P) (ha : a.length = d)
+    (w : Rat) :
+    (xs.map fun p => (p, (0 : Rat))).foldl
+      (fun (acc : P × Rat) x => (vadd acc.1 (vscale x.2 x.1), acc.2 + x.2)) (a, w) = (a, w) := by
+  induction xs with
+  | nil => rfl
+  | cons p xs ih =>
+    simp only [List.map_cons, List.foldl_cons]
+    rw [vadd_vscale_zero a p (by rw [ha, hx p List.mem_cons_self]), add_zero]
+    exact ih (fun q hq => hx q (List.mem_cons_of_mem _ hq))
+
+open FedjaxVerif.FedAvg (vadd vscale) in
+theorem vscale_zero_vadd (p q : P) (h : p.length = q.length) : vadd (vscale 0 p) q = q := by
+  induction p generalizing q with
+  | nil => cases q with
+    | nil => rfl
+    | cons _ _ => simp at h
+  | cons y p ih =>
+    cases q with
+    | nil => simp at h
+    | cons z q =>
+      simp only [List.length_cons, Nat.add_right_cancel_iff] at h
+      have := ih q h
+      simp only [vadd, vscale, List.map_cons, List.zipWith_cons_cons] at this ⊢
+      rw [this]; simp
+
+open FedjaxVerif.FedAvg (vadd vscale) in
+/-- **One-hot weights isolate a client.** With weight `1` for one client and `0` for all others the
+aggregate is exactly that client's quantised value: this is how the harness reads the per-client
+quantised values off the real aggregator without replicating its key stream. -/
+theorem C10_wmean_onehot (d : Nat) (pre post : List P) (q : P) (hq : q.length = d)
+    (hpre : ∀ p ∈ pre, p.length = d) (hpost : ∀ p ∈ post, p.length = d) :
+    wmean ((pre.map fun p => (p, (0 : Rat))) ++ (q, 1) :: post.map fun p => (p, (0 : Rat))) = some q := by
+  have hone : vscale 1 q = q := by simp [vscale]
+  cases pre with
+  | nil =>
+    have hacc : (post.map fun p => (p, (0 : Rat))).foldl
+        (fun (acc : P × Rat) x => (vadd acc.1 (vscale x.2 x.1), acc.2 + x.2)) (vscale 1 q, 1) = (q, 1) := by
+      rw [hone]; exact fold_zero_weights d post hpost q hq 1
+    simp only [List.map_nil, List.nil_append, wmean, hacc]
+    simp [hone]
+  | cons p0 pre =>
+    have hz : (vscale 0 p0).length = d := by simp [vscale, hpre p0 List.mem_cons_self]
+    have hacc : ((pre.map fun p => (p, (0 : Rat))) ++ (q, 1) :: post.map fun p => (p, (0 : Rat))).foldl
+        (fun (acc : P × Rat) x => (vadd acc.1 (vscale x.2 x.1), acc.2 + x.2)) (vscale 0 p0, 0) = (q, 1) := by
+      rw [List.foldl_append, fold_zero_weights d pre (fun p hp => hpre p (List.mem_cons_of_mem _ hp)) _ hz 0]
+      simp only [List.foldl_cons]
+      rw [hone, vscale_zero_vadd p0 q (by rw [hq, hpre p0 List.mem_cons_self]),
+        fold_zero_weights d post hpost q hq (0 + 1)]
+      simp
+    simp only [List.map_cons, List.cons_append, wmean, hacc]
+    simp [hone]
 
 /-- the family `k·0ⁿ·1·x` is prefix-free in `n` -/
 theorem zeros_one_prefix (a b : Nat) (x y : List Nat)
@@ -622,6 +705,12 @@ example : (compApply false exQuant exBits [(1, [1, 2], 1), (2, [3, 4], 3)] ⟨5,
 example : (compRun true exQuant exBits ⟨0, []⟩
     [[(1, [1], 1)], [(1, [1], 1)]]).map (·.2.rng) = [[0, 0], [0, 0, 0, 0]] := by decide +kernel
 example : keysOfRound true 1 [5] = [[5, 0, 0, 0, 1], [5, 0, 0, 1]] := by decide +kernel
+
+example : wmean [([5, 7], 0), ([1, 2], 1), ([9, 9], 0)] = some [1, 2] := by decide +kernel
+-- a table that lacks client 7's entry but agrees at the participant 9 gives the same results
+example : apflResults exGrad (sgd (1/8)) (1/2) exState [⟨9, 1, [1], [1]⟩]
+    = apflResults exGrad (sgd (1/8)) (1/2) (⟨exState.server, [(9, ⟨[3, 1], 1/4⟩)]⟩ : AState Nat Unit)
+        [⟨9, 1, [1], [1]⟩] := by decide +kernel
 
 -- serialise/continue: a codec that is not the identity on representations
 example : historyCkpt (fun (s : Nat) (c : Nat) => s * 2 + c) (fun s => [s, s]) (fun b => b.headD 0) 1
